@@ -448,4 +448,149 @@ theorem tokenIds_ne_end (src : Str) (ts : List Tok) :
   exact tokenType_ne_end src t (terminalId_eq_zero _ e)
 
 
+/-! ### the run up to a token is a function of the tokens up to it -/
+
+/-- one iteration of the parse loop, as a function of the stack, the look-ahead, and whether a token is left -/
+inductive Step where
+  | done (r : LRResult)
+  | shift (stack : List Nat)
+  | reduce (stack : List Nat)
+
+def lrStep (t : LRTable) (stack : List Nat) (la : Nat) (k : Nat) (noToken : Bool) : Step :=
+  match stack with
+  | [] => .done (.stuck k 0)
+  | s :: below =>
+    match t.decide s la with
+    | none => .done (.errorAt k s)
+    | some a =>
+      if a > 0 then (if noToken then .done (.stuck k s) else .shift (a.toNat :: s :: below))
+      else if a < 0 then
+        match (s :: below).drop (t.prodLen (-a).toNat) with
+        | [] => .done (.stuck k s)
+        | b :: below' =>
+          match t.goto b (t.prodLhs (-a).toNat) with
+          | none => .done (.stuck k s)
+          | some s' => .reduce (s' :: b :: below')
+      else .done (.accept k)
+
+theorem lrRun_succ (t : LRTable) (f : Nat) (stack rest : List Nat) (k : Nat) :
+    lrRun t (f + 1) stack rest k =
+      match lrStep t stack (rest.headD endTok) k rest.isEmpty with
+      | .done r => r
+      | .shift st' => lrRun t f st' rest.tail (k + 1)
+      | .reduce st' => lrRun t f st' rest k := by
+  cases stack with
+  | nil => simp [lrRun, lrStep]
+  | cons s below =>
+    simp only [lrRun, lrStep]
+    cases t.decide s (rest.headD endTok) with
+    | none => rfl
+    | some a =>
+      simp only []
+      by_cases hp : a > 0
+      · simp only [hp, if_true]
+        cases rest <;> simp
+      · by_cases hn : a < 0
+        · simp only [hp, hn, if_true, if_false]
+          cases (s :: below).drop (t.prodLen (-a).toNat) with
+          | nil => rfl
+          | cons b below' =>
+            simp only []
+            cases t.goto b (t.prodLhs (-a).toNat) <;> rfl
+        · simp only [hp, hn, if_false]
+
+theorem lrStep_done_error (t : LRTable) (stack : List Nat) (la k : Nat) (b : Bool) (idx s : Nat)
+    (h : lrStep t stack la k b = .done (.errorAt idx s)) : idx = k := by
+  unfold lrStep at h
+  split at h
+  · cases h
+  · split at h
+    · injection h with h; injection h with h1 h2; exact h1.symm
+    · split at h
+      · split at h <;> cases h
+      · split at h
+        · split at h
+          · cases h
+          · split at h <;> cases h
+        · cases h
+
+/-- an error is reported at an index that is at least the number of tokens already shifted -/
+theorem lrRun_error_ge (t : LRTable) : ∀ (f : Nat) (stack rest : List Nat) (k idx s : Nat),
+    lrRun t f stack rest k = .errorAt idx s → k ≤ idx := by
+  intro f
+  induction f with
+  | zero => intro stack rest k idx s h; simp [lrRun] at h
+  | succ f ih =>
+    intro stack rest k idx s h
+    rw [lrRun_succ] at h
+    cases hs : lrStep t stack (rest.headD endTok) k rest.isEmpty with
+    | done r => rw [hs] at h; simp only [] at h; subst h; have := lrStep_done_error _ _ _ _ _ _ _ hs; omega
+    | shift st' => rw [hs] at h; have := ih _ _ _ _ _ h; omega
+    | reduce st' => rw [hs] at h; exact ih _ _ _ _ _ h
+
+/-- lrRun_append: an error at one of the tokens of `r` is reported with and without further tokens behind `r`: the
+    run up to that token is a function of the tokens up to it -/
+theorem lrRun_append (t : LRTable) : ∀ (f : Nat) (stack r extra : List Nat) (k j s : Nat), j < r.length →
+    (lrRun t f stack r k = .errorAt (k + j) s ↔ lrRun t f stack (r ++ extra) k = .errorAt (k + j) s) := by
+  intro f
+  induction f with
+  | zero => intro stack r extra k j s _; simp [lrRun]
+  | succ f ih =>
+    intro stack r extra k j s hj
+    cases r with
+    | nil => simp at hj
+    | cons x r' =>
+      rw [lrRun_succ, lrRun_succ]
+      have h1 : (x :: r').headD endTok = x := rfl
+      have h2 : (x :: r' ++ extra).headD endTok = x := rfl
+      have h3 : (x :: r').isEmpty = false := rfl
+      have h4 : (x :: r' ++ extra).isEmpty = false := rfl
+      rw [h1, h2, h3, h4]
+      cases hs : lrStep t stack x k false with
+      | done res => simp only []
+      | shift st' =>
+        simp only [List.tail_cons, List.cons_append]
+        cases j with
+        | zero =>
+          constructor
+          · intro h; have := lrRun_error_ge t _ _ _ _ _ _ h; omega
+          · intro h; have := lrRun_error_ge t _ _ _ _ _ _ h; omega
+        | succ j' =>
+          have e : k + (j' + 1) = (k + 1) + j' := by omega
+          rw [e]
+          exact ih st' r' extra (k + 1) j' s (by simp at hj; omega)
+      | reduce st' =>
+        simp only []
+        exact ih st' (x :: r') extra k j s hj
+
+theorem fuelFor_mono (t : LRTable) (n m : Nat) (h : n ≤ m) : t.fuelFor n ≤ t.fuelFor m := by
+  unfold LRTable.fuelFor
+  have : (n + 1) * (t.maxRank + 1) ≤ (m + 1) * (t.maxRank + 1) := Nat.mul_le_mul_right (t.maxRank + 1) (by omega)
+  omega
+
+/-- the viable-prefix property for a well-formed table: whether the parse reports its error at token `t` (index
+    |ts1|) is decided by the tokens up to and including `t` — whatever follows -/
+theorem lrParse_error_prefix (t : LRTable) (hwf : t.wf = true) (ts1 : List Nat) (x : Nat) (rest : List Nat)
+    (hne : ∀ y ∈ ts1 ++ x :: rest, y ≠ endTok) (s : Nat) :
+    lrParse t (ts1 ++ x :: rest) = .errorAt ts1.length s ↔ lrParse t (ts1 ++ [x]) = .errorAt ts1.length s := by
+  have hne' : ∀ y ∈ ts1 ++ [x], y ≠ endTok := by
+    intro y hy
+    apply hne y
+    simp only [List.mem_append, List.mem_cons, List.mem_singleton, List.not_mem_nil, or_false] at hy ⊢
+    rcases hy with h | h
+    · exact Or.inl h
+    · exact Or.inr (Or.inl h)
+  have hshort := lrParse_total t hwf (ts1 ++ [x]) hne'
+  have hlen : (ts1 ++ [x]).length ≤ (ts1 ++ x :: rest).length := by simp
+  have hfuel := fuelFor_mono t _ _ hlen
+  have e1 : lrParse t (ts1 ++ [x]) = lrRun t (t.fuelFor (ts1 ++ x :: rest).length) [0] (ts1 ++ [x]) 0 :=
+    (lrRun_mono' t _ [0] (ts1 ++ [x]) 0 hshort.ne_fault.1 _ hfuel).symm
+  have happ := lrRun_append t (t.fuelFor (ts1 ++ x :: rest).length) [0] (ts1 ++ [x]) rest 0 ts1.length s (by simp)
+  have e2 : (ts1 ++ [x]) ++ rest = ts1 ++ x :: rest := by simp
+  rw [e2] at happ
+  simp only [Nat.zero_add] at happ
+  rw [e1]
+  unfold lrParse
+  exact happ.symm
+
 end Pywbem.Model.MofParse
